@@ -3,6 +3,7 @@ package lua
 import (
 	"context"
 	"fmt"
+	"math"
 	"os"
 )
 
@@ -134,7 +135,12 @@ func (nm LNumber) Format(f fmt.State, c rune) {
 	case 'b', 'd', 'U':
 		defaultFormat(int64(nm), f, c)
 	case 'e', 'E', 'f', 'F', 'g', 'G':
-		defaultFormat(float64(nm), f, c)
+		if v := float64(nm); math.IsInf(v, 0) || math.IsNaN(v) {
+			// C writes inf / nan (upper case for E F G), never zero-padded; fmt would write +Inf / NaN
+			formatNonFinite(v, f, c)
+		} else {
+			defaultFormat(v, f, c)
+		}
 	case 'i':
 		defaultFormat(int64(nm), f, 'd')
 	default:
